@@ -21,6 +21,7 @@ import (
 	"sync"
 
 	"github.com/mattn/anko/ast"
+	"github.com/mattn/anko/env"
 	"github.com/mattn/anko/parser"
 	"github.com/mattn/anko/vm"
 	"verifharness/internal/astjson"
@@ -33,6 +34,8 @@ type Case struct {
 	Prog      []interface{} `json:"prog"`
 	Exp       *vmrun.Obs    `json:"exp"`
 	Unordered bool          `json:"unordered"`
+	// environments that differ in what the type name "num" means: the same tree is run in each of them
+	Variants []string `json:"variants"`
 	// outcomes under recorded deviations of the code from the intended design (KNOWN_FINDINGS.json)
 	Alt []struct {
 		Key string     `json:"key"`
@@ -50,15 +53,15 @@ type Mismatch struct {
 }
 
 type Summary struct {
-	Cases      int            `json:"cases"`
-	Compared   int            `json:"compared"`
-	OpenCases  int            `json:"open_cases"`
-	Runs       int            `json:"runs"`
-	Mismatches []Mismatch     `json:"mismatches"`
-	NMismatch  map[string]int `json:"n_mismatch"`
-	Known      map[string]int `json:"known"`
+	Cases      int               `json:"cases"`
+	Compared   int               `json:"compared"`
+	OpenCases  int               `json:"open_cases"`
+	Runs       int               `json:"runs"`
+	Mismatches []Mismatch        `json:"mismatches"`
+	NMismatch  map[string]int    `json:"n_mismatch"`
+	Known      map[string]int    `json:"known"`
 	KnownIDs   map[string]string `json:"known_ids"`
-	Samples    []interface{}  `json:"samples"`
+	Samples    []interface{}     `json:"samples"`
 }
 
 func sortedLog(l []vmrun.V) []vmrun.V {
@@ -101,6 +104,67 @@ func compareExp(c *Case, got vmrun.Obs) string {
 		}
 	}
 	return ""
+}
+
+var variantType = map[string]reflect.Type{"int64": reflect.TypeOf(int64(0)), "float64": reflect.TypeOf(float64(0)), "string": reflect.TypeOf(""), "bool": reflect.TypeOf(true)}
+
+// runVariants: one shared tree executed in environments that bind the type name "num" differently.  The result a variant
+// yields alone is the result of its first-ever run on a freshly parsed tree; the tree is parsed twice and the variants are
+// run in opposite orders (then all at once), so every variant is first on one of the trees.
+func runVariants(c Case, src string, stmt ast.Stmt, nconc int, sum *Summary, add func(Mismatch)) {
+	setup := func(v string) vmrun.Setup {
+		return func(e *env.Env) { e.DefineType("num", variantType[v]) }
+	}
+	stmt2, err := parser.ParseSrc(src)
+	if err != nil {
+		add(Mismatch{ID: c.ID, Kind: "machinery", What: err.Error(), Src: src})
+		return
+	}
+	n := len(c.Variants)
+	first := map[string]vmrun.Obs{}
+	check := func(v string, o vmrun.Obs, where string) {
+		if f, ok := first[v+"|alone"]; ok && !vmrun.SameObs(f, o, c.Unordered) {
+			add(Mismatch{ID: c.ID, Kind: "isolation", What: fmt.Sprintf("in the environment where num = %s the shared tree yields something else %s than it yields alone", v, where), Src: src, Exp: f, Got: o})
+		}
+	}
+	// alone: variant 0 first on tree 1, variant n-1 first on tree 2
+	o, _ := vmrun.Run(context.Background(), stmt, setup(c.Variants[0]))
+	first[c.Variants[0]+"|alone"] = o
+	o, _ = vmrun.Run(context.Background(), stmt2, setup(c.Variants[n-1]))
+	first[c.Variants[n-1]+"|alone"] = o
+	sum.Runs += 2
+	for i := 1; i < n; i++ {
+		v := c.Variants[i]
+		o, _ := vmrun.Run(context.Background(), stmt, setup(v))
+		sum.Runs++
+		if _, ok := first[v+"|alone"]; !ok {
+			// a middle variant: its alone result comes from a third fresh tree
+			st3, _ := parser.ParseSrc(src)
+			a, _ := vmrun.Run(context.Background(), st3, setup(v))
+			first[v+"|alone"] = a
+		}
+		check(v, o, "after runs in other environments")
+	}
+	for i := n - 2; i >= 0; i-- {
+		o, _ := vmrun.Run(context.Background(), stmt2, setup(c.Variants[i]))
+		sum.Runs++
+		check(c.Variants[i], o, "after runs in other environments")
+	}
+	var wg sync.WaitGroup
+	res := make([]vmrun.Obs, nconc)
+	for k := 0; k < nconc; k++ {
+		wg.Add(1)
+		go func(k int) {
+			defer wg.Done()
+			res[k], _ = vmrun.Run(context.Background(), stmt, setup(c.Variants[k%n]))
+		}(k)
+	}
+	wg.Wait()
+	sum.Runs += nconc
+	for k := 0; k < nconc; k++ {
+		check(c.Variants[k%n], res[k], "concurrently with runs in other environments")
+	}
+	sum.Compared++
 }
 
 func main() {
@@ -167,6 +231,10 @@ func main() {
 				add(Mismatch{ID: c.ID, Kind: "machinery", What: "tree built by the real parser differs from the program", Src: src, Exp: string(jb), Got: string(ja)})
 				continue
 			}
+		}
+		if len(c.Variants) > 0 {
+			runVariants(c, src, stmt, nconc, &sum, add)
+			continue
 		}
 		d0 := vmrun.Digest(stmt)
 		obs := make([]vmrun.Obs, 2+nconc)
